@@ -85,39 +85,44 @@ def _check_dejitter(case):
     return 1, "moved%d" % min(nmoved, 3), (kind, rkind, md, nmoved, exact, tie), viols
 
 
+ALIGN_NAMES = (("a", "ref", "p"), ("re", "ref", "f"), ("refs", "ref", "e"), ("word", "words", "or"))
+
+
 def _check_align(case):
-    s1, pts, ref, md = case
+    s1, pts, ref, md = case[:4]
+    # tier names: unrelated ones, and names that are contained in / contain the reference tier's name ("word" next to "words")
+    NA, NR, NP = ALIGN_NAMES[case[4] if len(case) > 4 else 0]
     tg = Textgrid(0, 2)
-    tg.addTier(IT("a", list(D.labelled(s1)), 0, 2))
-    tg.addTier(PT("ref", [(t, "r") for t in ref], 0, 2))
-    tg.addTier(PT("p", list(D.labelled_points(pts)), 0, 2))
+    tg.addTier(IT(NA, list(D.labelled(s1)), 0, 2))
+    tg.addTier(PT(NR, [(t, "r") for t in ref], 0, 2))
+    tg.addTier(PT(NP, list(D.labelled_points(pts)), 0, 2))
     orig = {t.name: canon(t) for t in tg.tiers}
     tgc = tg.new()
-    st, r, _ = call(praatio_scripts.alignBoundariesAcrossTiers, tgc, "ref", md)
-    tag = f"alignBoundariesAcrossTiers(ref={ref}, {md}) on a={s1} p={pts}"
+    st, r, _ = call(praatio_scripts.alignBoundariesAcrossTiers, tgc, NR, md)
+    tag = f"alignBoundariesAcrossTiers(tg, {NR!r}, {md}) with reference points {ref} on tiers {NA!r}={s1} {NP!r}={pts}"
     if st == "exc":
         if isinstance(r, PE) or not ref:
             # the call works on the caller's textgrid tier by tier; when one tier cannot be adjusted the textgrid still holds every tier, in
             # order, each with its entry count and labels ("entry count, order and labels never change"), and the reference tier as it was
             viols = []
-            if tuple(tgc.tierNames) != ("a", "ref", "p"):
+            if tuple(tgc.tierNames) != (NA, NR, NP):
                 viols.append(Viol("align-failed-and-lost-tiers", f"{tag} raised {type(r).__name__}; the textgrid now holds {tuple(tgc.tierNames)}"))
             else:
-                if canon(tgc.getTier("ref")) != orig["ref"]:
+                if canon(tgc.getTier(NR)) != orig[NR]:
                     viols.append(Viol("align-reference-changed", f"{tag} raised {type(r).__name__}; the reference tier changed"))
-                for nm in ("a", "p"):
+                for nm in (NA, NP):
                     got = ents(tgc.getTier(nm))
                     if [g[-1] for g in got] != [e[-1] for e in orig[nm][4]]:
                         viols.append(Viol("align-failed-and-changed-labels", f"{tag} raised {type(r).__name__}; tier {nm} now {got}, was {orig[nm][4]}"))
             return 1, "raised", None, viols
         return 1, "X", None, [Viol("align-raised:" + type(r).__name__, f"{tag}: {r!r}")]
     viols = []
-    if tuple(r.tierNames) != ("a", "ref", "p"):
+    if tuple(r.tierNames) != (NA, NR, NP):
         viols.append(Viol("align-tier-order", f"{tag}: {r.tierNames}"))
         return 1, "!", None, viols
-    if canon(r.getTier("ref")) != orig["ref"]:
+    if canon(r.getTier(NR)) != orig[NR]:
         viols.append(Viol("align-reference-changed", tag))
-    for nm in ("a", "p"):
+    for nm in (NA, NP):
         before = orig[nm][4]
         got = ents(r.getTier(nm))
         if len(got) != len(before) or [g[-1] for g in got] != [e[-1] for e in before]:
@@ -251,6 +256,11 @@ def parts(tier):
                 for ref in refs:
                     for md in (0.25, 0.3):
                         yield (s1, pts, ref, md)
+        for s1 in sets[::stride * 3]:
+            for pts in D.point_sets(G[::2], 2):
+                for ref in refs:
+                    for ni in (1, 2, 3):
+                        yield (s1, pts, ref, 0.25, ni)
 
     sets3 = D.interval_sets(D.unit_grid(5), 3)
 
